@@ -133,8 +133,9 @@ def priors_for(good, alt):
     if len(good) > 0:
         out.append(('empty', b''))
         out.append(('corrupt-same', flipped(good, len(good) // 2)))
-    for k in range(1, len(good)):
-        out.append((f'prefix{k}' if len(good) <= 4 else 'prefix', good[:k]))
+    ks = range(1, len(good)) if len(good) <= 8 else sorted({1, 11, len(good) // 2, len(good) - 1})
+    for k in ks:
+        out.append((f'prefix{k}', good[:k]))
     if len(good) > 1:
         out.append(('nonprefix-short', flipped(good, 0)[:len(good) - 1]))
     out.append(('longer', good + b'Z'))
@@ -239,8 +240,6 @@ def gen_cases(rng, tier):
     tar2 = make_tar(2)
     for good, alt, untar in [(b'kapture-archive', b'evil-archive-xx', 'fake'), (tar, tar2, 'real')]:
         for (pn, prior) in priors_for(good, alt):
-            if pn == 'prefix' and rng.random() < (0.0 if thorough else 0.8) and untar == 'real':
-                continue
             for marker, force in [(False, False), (True, False), (True, True), (False, True)]:
                 for srvn, kw in [('honest', {}),
                                  ('alt', {'get_default': G(src='alt', rng='ignore')}),
@@ -264,17 +263,22 @@ def gen_cases(rng, tier):
     # expected checksum that nothing can match / upper case (string comparison)
     cases.append(mk(b'kapture-archive', expected=sha(b'kapture-archive').upper(), tag='core/expected-upper'))
     cases.append(mk(b'kapture-archive', expected='0' * 64, prior=b'kapture-archive', tag='core/expected-zero'))
+    d = sha(b'kapture-archive')
+    for exp in (d[:-1] + ('0' if d[-1] != '0' else '1'), ('0' if d[0] != '0' else '1') + d[1:], d[:32], d + '0'):
+        for prior in (None, b'kapture-archive'):
+            cases.append(mk(b'kapture-archive', expected=exp, prior=prior, tag='core/expected-near-miss'))
     # --- B. files larger than the sha block (4096) and the download chunk (32768): differences far from the start
-    big = bytes(0x23 + (i * 131 + (i >> 8)) % 90 for i in range(9000))
-    for k in (4100, 8999):
+    big = bytes(0x23 + (i * 131 + (i >> 8)) % 90 for i in range(4600))
+    for k in (4100, 4599):
         cases.append(mk(big, alt=subst(big, k), gets=[G(src='alt')], tag='big/flip-late', chunk=1000))
         cases.append(mk(big, alt=subst(big, k), get_default=G(src='alt'), tag='big/flip-late-always', chunk=1000))
         cases.append(mk(big, alt=subst(big, k), prior=subst(big, k), probe_default=P('true'),
                         get_default=G(conn=True), tag='big/prior-flip-late'))
-    cases.append(mk(big, prior=big[:5000], tag='big/resume', chunk=700))
+    cases.append(mk(big, prior=big[:4097], tag='big/resume', chunk=700))
     cases.append(mk(big, prior=big[:4096], get_default=G(rng='ignore'), tag='big/resume-ignored', chunk=4096))
-    huge = bytes(0x23 + (i * 7 + (i >> 7)) % 90 for i in range(34000))
-    cases.append(mk(huge, alt=subst(huge, 33999), gets=[G(src='alt')], tag='big/34k'))
+    if thorough:
+        huge = bytes(0x23 + (i * 7 + (i >> 7)) % 90 for i in range(34000))
+        cases.append(mk(huge, alt=subst(huge, 33999), gets=[G(src='alt')], tag='big/34k'))
     # --- C. small exhaustive block
     if thorough:
         exhaustive_small(cases, [b'', b'a', b'ab', b'abc', b'abcd'], full=True)
@@ -598,6 +602,9 @@ def oracle(case, obs):
 
 
 # ------------------------------------------------------------------ Coq encoding
+_PRINTABLE = re.compile(rb'^[\x20-\x7e]*\Z')
+
+
 def _creq(r):
     if r[0] == 'probe':
         return 'RProbe'
@@ -627,11 +634,18 @@ def sha_table(case, obs):
 def encode(case, obs):
     pool = {}
 
+    def lit(b):
+        if _PRINTABLE.match(b):
+            return kv.cstr(b)
+        return '(unhex "%s")' % b.hex()
+
     def cb(b):          # byte strings longer than a few bytes are let-bound once per case
         if isinstance(b, str):
             b = B(b)
         if len(b) <= 12:
-            return kv.cstr(b)
+            return lit(b)
+        if len(b) > 16000:   # coqc's parser overflows its stack on string literals beyond ~30 kB
+            return '(String.append %s %s)' % (cb(b[:16000]), cb(b[16000:]))
         if b not in pool:
             pool[b] = 'b%d' % len(pool)
         return pool[b]
@@ -664,7 +678,7 @@ def encode(case, obs):
                 kv.copt(None if obs['archive'] is None else cb(obs['archive'])),
                 kv.clist(kv.cstr(x) for x in obs['index']),
                 kv.clist(_creq(r) for r in obs['requests']), kv.clist(evs)))
-    lets = ''.join('let %s : string := %s in\n ' % (n, kv.cstr(b)) for b, n in pool.items())
+    lets = ''.join('let %s : string := %s in\n ' % (n, lit(b)) for b, n in pool.items())
     return '(' + lets + body + ')'
 
 
@@ -697,10 +711,8 @@ def _prior_kind(case):
 
 def classify(case, obs):
     marker = 'marker' if NAME in obs['prior_names'] else 'nomarker'
-    return '%s/prior=%s/%s%s/%s/-> %s' % (case['tag'].split('/')[0], _prior_kind(case), marker,
-                                          '+force' if case['force'] else '', case['untar'],
-                                          obs['outcome'] if obs['outcome'] != 'raised'
-                                          else 'raised:' + (obs['exc'] or '').split(':')[0])
+    out = obs['outcome'] if obs['outcome'] != 'raised' else 'raised:' + (obs['exc'] or '').split(':')[0]
+    return 'prior=%s/%s%s/-> %s' % (_prior_kind(case), marker, '+force' if case['force'] else '', out)
 
 
 def _short(h):
